@@ -319,6 +319,11 @@ impl Obs {
         all
     }
 
+    /// Let a component driver announce a commit it performed itself (for the cache director).
+    pub fn signal_commit(&self) {
+        self.commit_published.fetch_add(1, Relaxed);
+    }
+
     pub fn seq_now(&self) -> u64 {
         self.seq.load(Relaxed)
     }
@@ -432,6 +437,8 @@ impl Obs {
                 if tl_rand() % 2 == 0 {
                     let before = self.commit_published.load(Relaxed);
                     self.hold(3000, || self.commit_published.load(Relaxed) != before);
+                    // give other readers time to touch the same account after that commit
+                    self.delay_us(tl_rand() % 300);
                 }
             }
             _ => {}
